@@ -21,6 +21,7 @@ package main
 
 import (
 	"fmt"
+	"os"
 	"sort"
 	"strings"
 	"time"
@@ -88,13 +89,38 @@ func c05Canon(v interface{}, d int) string {
 	return evCanonD(v, d)
 }
 
-// call frames as the real code builds them (hook point func.frame in function.Run, hooks/C05.patch: called after the
-// parameters are bound and the frame is linked): scope name, name of the scope it is linked to, and the names it
-// holds at that moment (sorted). c05FrameHook is false on a tree without the hook: the F section then says so.
+// call frames as the real code builds them (hook point func.frame in function.Run: called after the parameters are
+// bound and the frame is linked). Reported per frame, STRUCTURALLY (no display names): the kinds of the scopes from
+// the one the frame is really linked to up to the first call frame or root — b = block scope, f = a call frame,
+// g = the global scope of the case, r = another root — and the names the frame holds at that moment (sorted).
+// c05HookState: "seen" (hook present and reporting), "absent" (no call site in the tree), "silent" (the tree has a
+// func.frame call site but the probe call did not reach it: reported loudly, never skipped).
 var (
-	c05Frames    []string
-	c05FrameHook bool
+	c05Frames      []string
+	c05FrameScopes []parser.Scope
+	c05Global      parser.Scope
+	c05HookState   = "absent"
 )
+
+func c05ScopeChain(sc parser.Scope) string {
+	var kinds []string
+	for depth := 0; sc != nil && depth < 50; depth++ {
+		for _, f := range c05FrameScopes {
+			if f == sc {
+				return strings.Join(append(kinds, "f"), ".")
+			}
+		}
+		if sc.Parent() == nil {
+			if sc == c05Global {
+				return strings.Join(append(kinds, "g"), ".")
+			}
+			return strings.Join(append(kinds, "r"), ".")
+		}
+		kinds = append(kinds, "b")
+		sc = sc.Parent()
+	}
+	return strings.Join(append(kinds, "?"), ".")
+}
 
 func c05FrameHandler(point string, args ...interface{}) {
 	if point != "func.frame" || len(args) < 2 {
@@ -104,21 +130,29 @@ func c05FrameHandler(point string, args ...interface{}) {
 	if !ok || fvs.Parent() == nil {
 		return
 	}
-	decl := fvs.Parent() // the scope the frame is REALLY linked to
 	var names []string
 	for k := range scope.ToObject(fvs) {
 		names = append(names, hx(fmt.Sprint(k)))
 	}
 	sort.Strings(names)
-	c05Frames = append(c05Frames, hx(fvs.Name())+">"+hx(decl.Name())+"["+strings.Join(names, ",")+"]")
+	c05Frames = append(c05Frames, c05ScopeChain(fvs.Parent())+"["+strings.Join(names, ",")+"]")
+	c05FrameScopes = append(c05FrameScopes, fvs)
 }
 
 func c05Setup() {
 	evSetup()
 	verifhook.SetHandler(c05FrameHandler)
-	c05Frames = nil
-	c05Outcome(scope.NewScope(scope.GlobalScope), "func f() {\n}\nf()")
-	c05FrameHook = len(c05Frames) > 0
+	c05Frames, c05FrameScopes = nil, nil
+	c05Outcome(scope.NewScope(scope.GlobalScope), "func f(a) {\nlet b := a\nreturn b\n}\nf(1)")
+	src, _ := os.ReadFile(repoDir() + "/interpreter/rt_func.go")
+	switch {
+	case len(c05Frames) > 0:
+		c05HookState = "seen"
+	case strings.Contains(string(src), "verifhook.At(\"func.frame\""):
+		c05HookState = "silent"
+	default:
+		c05HookState = "absent"
+	}
 	registerX("mark", func(args []interface{}) (interface{}, error) {
 		parts := make([]string, len(args))
 		for i, a := range args {
@@ -169,8 +203,9 @@ func c05LogFrom(i int) (string, int) {
 // section after a probe that left the model); props/C05.py compares section by section and accepts U.
 func c05Run(payload string) string {
 	evLog.reset()
-	c05Frames = nil
+	c05Frames, c05FrameScopes = nil, nil
 	vs := scope.NewScope(scope.GlobalScope)
+	c05Global = vs
 	var outs []string
 	n := 0
 	for i, sec := range strings.Split(payload, c05Sep) {
@@ -182,8 +217,11 @@ func c05Run(payload string) string {
 		lg, n = c05LogFrom(n)
 		if i == 0 {
 			fr := "F nohook"
-			if c05FrameHook {
+			switch c05HookState {
+			case "seen":
 				fr = "F " + strings.Join(c05Frames, "|")
+			case "silent":
+				fr = "F HOOK-PRESENT-BUT-SILENT (rt_func.go has a func.frame call site that a plain call does not reach)"
 			}
 			outs = append(outs, out, "G "+c05Dump(vs), "LOG "+lg, fr)
 		} else {
@@ -214,6 +252,12 @@ var c05Shapes = []struct {
 	}},
 	{"except", func(o, in string) string {
 		return "try {\nraise(\"E\")\n} except {\n" + o + "\n" + in + "\n}"
+	}},
+	{"typed except as", func(o, in string) string {
+		return "try {\nraise(\"E\", \"d\", 1)\n} except \"X\" {\nx.mark(8)\n} except \"E\" as c {\n" + o + "\n" + in + "\n}\nx.mark(c)"
+	}},
+	{"typed except, two types", func(o, in string) string {
+		return "try {\nraise(\"E2\")\n} except \"E1\", \"E2\" {\n" + o + "\n" + in + "\n}"
 	}},
 	{"condition loop", func(o, in string) string {
 		return "c := 2\nfor c > 0 {\nc := c - 1\n" + o + "\n" + in + "\n}"
@@ -254,6 +298,8 @@ var c05Assigns = []string{
 	"for a in [7, 8] {\nx.mark(a)\n}",
 	"func a() {\n}",
 	"try {\nraise(\"E\")\n} except as a {\nx.mark(a.type)\n}",
+	"try {\nraise(\"E\")\n} except \"E\" as a {\nlet b := 3\nx.mark(a.type, b)\n}",
+	"try {\nraise(\"E\")\n} except \"E\" {\nlet a := 2\nlet b := 3\n}",
 	"a := [a]",
 	"if true {\nlet a := 3\nx.mark(a)\n}",
 }
@@ -272,6 +318,7 @@ var c05ParamSets = []struct {
 }{
 	{"", 0}, {"a", 1}, {"a, b", 2}, {"a, b=5", 2}, {"a=1, b=2", 2}, {"a, b=c", 2}, {"a, b=a", 2},
 	{"a=x.mark(7), b=x.mark(8)", 2}, {"a, b=[1]", 2}, {"a=c, b, c=3", 3},
+	{"a=h(1)", 1}, {"a, b=h(c)", 2}, {"a=h(h(2)), b=h(3)", 2}, {"a=new({\"k\": c})", 1}, {"a=func () {\nreturn c\n}", 1}, {"a=o.m(c)", 1},
 }
 
 var c05CallCtx = []struct{ name, pre, post string }{
@@ -336,6 +383,7 @@ var c05Containers = []string{
 	"{\"1\": 10, \"-1\": 20}",
 	"{-1: 10, 0: 20}",
 	"{\"k\": [10, {\"j\": 20}], 1: {2: [30]}, \"a\": {\"b\": 50}}",
+	"{1: {\"k\": 10, 1: [11, 12], \"1\": [13]}, \"1\": {\"k\": 20, 1: [21, 22], \"1\": [23]}, \"k\": {1: 30, \"1\": 31}}",
 	"[[10, 20], {\"k\": 30, 1: 40}, []]",
 	"{}",
 	"[]",
@@ -350,6 +398,7 @@ var c05Paths2 = []string{
 	"a.k", "a.j", "a.zz", "a.k[0]", "a.k[1].j", "a.k[1][\"j\"]", "a[\"k\"][1].j", "a[1][2][0]", "a[1][2][-1]", "a[1][2][1]",
 	"a[0][0]", "a[0][-1]", "a[0][2]", "a[1].k", "a[1][1]", "a[1][\"1\"]", "a[1].zz", "a[2][0]", "a.a.b", "a[\"a.b\"]", "a[\"a\"][\"b\"]",
 	"a[\"a\"].b", "a.k.j", "a[0].k", "a.zz.k", "a[5][0]", "a[b]", "a[c]", "a[b][b]", "a[1][b]",
+	"a[\"1\"].k", "a[1][1][0]", "a[\"1\"][1][0]", "a[1][\"1\"][0]", "a[\"1\"][\"1\"][0]", "a.k[1]", "a.k[\"1\"]", "a[b].k", "a[b][b][0]",
 }
 
 var c05ListOps = []string{
@@ -402,6 +451,25 @@ var c05Objects = []string{
 	"a := {\"init\": func (this) {\nx.mark(this)\n}, \"m\": func () {\nthis := 1\nreturn this\n}}\no := new(a, 3)\nx.mark(o.m())\nx.mark(o.m())",
 	"a := {\"init\": func () {\nx.mark(1)\n}}\no := new(a)\nb := new(o)\nx.mark(len(b))",
 	"a := {1: 2, \"k\": {\"j\": 1}}\no := new(a)\no.k.j := 2\nx.mark(a.k.j, o[1])",
+	// objects used as templates / super templates: their methods and inits are already bound to another object
+	"a := {\"k\": 1, \"m\": func () {\nreturn this.k\n}}\no := new(a)\nb := new(o)\nb.k := 7\nx.mark(b.m(), o.m(), a.k)",
+	"a := {\"k\": 1, \"m\": func (b) {\nthis.k := b\nreturn this.k\n}}\no := new(a)\nb := new(o)\nb.m(5)\nx.mark(b.k, o.k)\nc := new(b)\nc.m(6)\nx.mark(c.k, b.k, o.k)",
+	"a := {\"init\": func (b) {\nthis.k := b\nx.mark(1, b)\n}}\no := new(a, 1)\nb := {\"super\": [o], \"j\": 2}\nc := new(b, 3)\nx.mark(c.k, o.k, c.j)",
+	"a := {\"k\": 1, \"init\": func () {\nthis.k := 2\n}, \"m\": func () {\nreturn this.k\n}}\no := new(a)\nb := {\"super\": [o], \"init\": func () {\nlet f := super[0]\nf()\nthis.j := this.m()\n}}\nc := new(b)\no.k := 9\nx.mark(c.k, c.j, c.m(), o.m())",
+	"a := {\"k\": 1, \"m\": func () {\nreturn this.k\n}}\no := new(a)\nb := {\"super\": [o, a], \"k\": 3}\nc := new(b)\nx.mark(c.m())\no.k := 8\nx.mark(c.m(), o.m())",
+	"a := {\"m\": func () {\nreturn this\n}}\no := new(a)\nb := new(o)\nx.mark(b.m() == b, b.m() == o, o.m() == o)",
+}
+
+// user definitions that shadow inbuilt functions (a variable holding a function is resolved before stdlib and inbuilt
+// functions of the same name; lexical scoping applies to these names like to any other) and names outside {a,b,c,f,g,o}
+var c05Shadow = []string{
+	"func %s(a) {\nreturn 99\n}\nx.mark(%s([1, 2]))",
+	"%s := func (a) {\nreturn 98\n}\nx.mark(%s([1, 2]))",
+	"func f(%s) {\nreturn %s([1, 2])\n}\nx.mark(f(func (a) {\nreturn 97\n}))\nx.mark(f())",
+	"if true {\nlet %s := func (a) {\nreturn 96\n}\nx.mark(%s([1, 2]))\n}\nx.mark(%s([1, 2], [3]))",
+	"func f() {\nfunc %s(a) {\nreturn 95\n}\nreturn %s([1, 2])\n}\nx.mark(f())\nx.mark(%s([1, 2], [3]))",
+	"%s := 5\nx.mark(%s)\nx.mark(%s([1, 2], [3]))",
+	"o := {\"%s\": func (a) {\nreturn 94\n}}\nx.mark(o.%s([1, 2]))\nx.mark(%s([1, 2], [3]))",
 }
 
 // templates / function literals declared INSIDE a running method, init or function, instantiated and
@@ -448,6 +516,21 @@ var c05Chains = []struct{ pre, chained, asis, plain string }{
 	{"c := 9\nfunc f() {\nreturn func (a, b=c) {\nreturn [a, b]\n}\n}", "x.mark(f()(1))\nx.mark(f()(1, 2))", "x.mark(f())\nx.mark(f())", "let g := f()\nx.mark(g(1))\nlet g := f()\nx.mark(g(1, 2))"},
 	{"o := 0\nfunc f(a) {\nreturn func (b) {\nreturn func (c) {\nreturn [a, b, c]\n}\n}\n}", "x.mark(f(1)(2)(3))\no := f(4)(5)\nx.mark(o(6))", "x.mark(f(1))\no := f(4)\nx.mark(o(6))", "let g := f(1)\nlet c := g(2)\nx.mark(c(3))\nlet g := f(4)\no := g(5)\nx.mark(o(6))"},
 	{"a := {\"k\": 1, \"m\": func () {\nreturn this\n}, \"n\": func (b) {\nthis.k := b\nreturn this.k\n}}\no := new(a)", "x.mark(o.m().n(3))\nx.mark(o.k)", "", "let c := o.m()\nx.mark(c.n(3))\nx.mark(o.k)"},
+	// the ARGUMENTS of a call that follows a call result are evaluated in the parentless funcresult scope: every
+	// variable in them reads null (literals work)
+	{"a := 5\no := {\"m\": func () {\nreturn {\"n\": func (b, c=1) {\nreturn [b, c]\n}}\n}}", "x.mark(o.m().n(a))\nx.mark(o.m().n(a, a))", "if true {\nlet c := o.m()\nx.mark(c.n(null))\nlet c := o.m()\nx.mark(c.n(null, null))\n}", "let c := o.m()\nx.mark(c.n(a))\nlet c := o.m()\nx.mark(c.n(a, a))"},
+	{"o := {\"m\": func () {\nreturn {\"n\": func (b) {\nreturn [b]\n}}\n}}", "func f(c) {\nreturn o.m().n(c)\n}\nx.mark(f(7))", "func f(c) {\nlet a := o.m()\nreturn a.n(null)\n}\nx.mark(f(7))", "func f(c) {\nlet a := o.m()\nreturn a.n(c)\n}\nx.mark(f(7))"},
+}
+
+// distinct blocks share ONE scope when their (node kind, line, pos) coincide — known finding
+// block-scope-shared-by-position: the segments of one interpolating literal and separately parsed sources (a
+// program and its probes, console lines) all start at Line 1 Pos 1. {program, probe} as they are / with the leaked
+// name replaced by what a block-local name is outside its block (undefined = null)
+var c05BlockShare = []struct{ prog, probe, specProg, specProbe string }{
+	{"c := '{{if true { let a := 1 } }} {{if true { x.mark(a) } }}'\nx.mark(c)", "c", "c := '{{if true { let a := 1 } }} {{if true { x.mark(null) } }}'\nx.mark(c)", "c"},
+	{"if true {\nlet a := 1\n}", "if true {\nx.mark(a)\n}", "if true {\nlet a := 1\n}", "if true {\nx.mark(null)\n}"},
+	{"for b in [1] {\nlet a := 2\n}\nx.mark(a)", "for b in [1] {\nx.mark(a)\n}", "for b in [1] {\nlet a := 2\n}\nx.mark(a)", "for b in [1] {\nx.mark(null)\n}"},
+	{"try {\nlet a := 3\n} finally {\nlet b := 4\n}", "try {\nx.mark(a)\n} finally {\nx.mark(b)\n}", "try {\nlet a := 3\n} finally {\nlet b := 4\n}", "try {\nx.mark(null)\n} finally {\nx.mark(null)\n}"},
 }
 
 // ---------------------------------------------------------------- random programs
@@ -498,7 +581,8 @@ func (g *c05Rand) path() string {
 
 func (g *c05Rand) lit() string {
 	return g.pick("0", "1", "2", "3", "\"s\"", "\"k\"", "\"1\"", "null", "true", "[1, 2, 3]", "[]", "{\"k\": 1, \"j\": [2]}", "{1: \"x\", \"1\": \"y\"}",
-		"[[1], {\"k\": 2}]", "{\"a.b\": 1, \"k\": {\"j\": 3}}", "{}", "[a, b]", "{\"k\": a}", "[c]")
+		"[[1], {\"k\": 2}]", "{\"a.b\": 1, \"k\": {\"j\": 3}}", "{}", "[a, b]", "{\"k\": a}", "[c]",
+		"{1: {\"k\": 1}, \"1\": {\"k\": 2}}", "{1: [1, 2], \"1\": [3, 4], \"k\": {1: 5, \"1\": 6}}")
 }
 
 func (g *c05Rand) call() string {
@@ -597,7 +681,7 @@ func (g *c05Rand) stmt(d int) string {
 	case r < 67:
 		return "for " + g.pick("a in [1, 2]", "b in a", "c in [[1], [2]]", "[b, c] in o", "[a, b] in o", "c in b", "a in range(1, 2)") + " " + g.block(d)
 	case r < 72:
-		return "try " + g.block(d) + " except " + g.pick("", "as c ", "as a ") + g.block(d) + g.pick("", " finally "+g.block(d))
+		return "try " + g.block(d) + " except " + g.pick("", "as c ", "as a ", "\"Runtime error\" as c ", "\"Invalid state\", \"Runtime error\" ", "\"E\" as a ") + g.block(d) + g.pick("", " finally "+g.block(d), " except as b "+g.block(d))
 	case r < 90:
 		if g.level >= 2 {
 			return g.simple()
@@ -632,7 +716,8 @@ func (g *c05Rand) stmt(d int) string {
 			sup = ", \"super\": " + g.pick("[a]", "[a, b]", "[b]", "[o]", "[]")
 		}
 		t := g.pick("a", "b", "c", "o")
-		return t + " := {\"k\": " + g.safe() + ", \"m\": " + m + ini + sup + "}\no := new(" + t + g.pick("", ", 1", ", 2, 3") + ")"
+		return t + " := {\"k\": " + g.safe() + ", \"m\": " + m + ini + sup + "}\no := new(" + t + g.pick("", ", 1", ", 2, 3") + ")" +
+			g.pick("", "", "\nb := new(o)\nb.k := 7\nx.mark(b.m(1), o.m(1))", "\nc := {\"super\": [o], \"j\": 1}\nb := new(c, 4)\nx.mark(b.k, b.m(2), o.k)")
 	}
 }
 
@@ -772,8 +857,40 @@ func init() {
 						args[i] = fmt.Sprint(11 + i)
 					}
 					for _, cx := range c05CallCtx {
-						prog := "a := 1\nb := 2\nc := 3\nfunc f(" + ps.params + ") {\nreturn [a, b, c]\n}\n" + cx.pre + "x.mark(f(" + strings.Join(args, ", ") + "))" + cx.post
-						emit("exhaustive parameters x defaults x argument count x call context", prog, "[a, b, c]")
+						prog := "a := 1\nb := 2\nc := 3\no := {\"m\": func (a) {\nx.mark(6, a)\nreturn [a]\n}}\nfunc h(a) {\nx.mark(9, a)\nreturn [a]\n}\nfunc f(" + ps.params + ") {\nreturn [a, b, c]\n}\n" + cx.pre + "x.mark(f(" + strings.Join(args, ", ") + "))" + cx.post
+						// what the property demands of defaults (lexical: declaration scope + earlier parameters): the same call
+						// with every missing argument computed by a top-level helper d<j>(earlier parameters) — known finding
+						// defaults-in-caller-scope where the code as it is (defaults evaluated in the CALLER's scope) differs
+						var names, helpers, lets, ts []string
+						for j, pd := range strings.Split(ps.params, ", ") {
+							if pd == "" {
+								continue
+							}
+							nmDef := strings.SplitN(pd, "=", 2)
+							t := fmt.Sprintf("t%d", j+1)
+							switch {
+							case j < k:
+								lets = append(lets, "let "+t+" := "+args[j])
+							case len(nmDef) == 2:
+								helpers = append(helpers, fmt.Sprintf("func d%d(%s) {\nreturn %s\n}\n", j+1, strings.Join(names, ", "), nmDef[1]))
+								lets = append(lets, fmt.Sprintf("let %s := d%d(%s)", t, j+1, strings.Join(ts, ", ")))
+							default:
+								lets = append(lets, "let "+t+" := null")
+							}
+							names = append(names, nmDef[0])
+							ts = append(ts, t)
+						}
+						callArgs := append([]string{}, ts...)
+						if k > len(ts) {
+							callArgs = append(callArgs, args[len(ts):]...)
+						}
+						specProg := strings.Replace(prog, "func f(", strings.Join(helpers, "")+"func f(", 1)
+						specProg = strings.Replace(specProg, "x.mark(f("+strings.Join(args, ", ")+"))",
+							"if true {\n"+strings.Join(lets, "\n")+"\nx.mark(f("+strings.Join(callArgs, ", ")+"))\n}", 1)
+						g.Count("exhaustive parameters x defaults x argument count x call context")
+						lz.Emit(func() string {
+							return evPayload(prog) + c05Alt + evPayload(specProg) + c05Alt + "#defaults-in-caller-scope" + c05Sep + evPayload("[a, b, c]")
+						})
 					}
 				}
 			}
@@ -836,11 +953,26 @@ func init() {
 			for _, s := range c05Objects {
 				emit("directed objects", s, "o", "a", "b")
 			}
+			// (6a) user definitions shadowing inbuilt names, and other names
+			for _, nm := range []string{"len", "add", "del", "concat", "new", "type", "range", "raise", "myfunc", "x", "this"} {
+				for _, t := range c05Shadow {
+					emit("exhaustive shadowing form x inbuilt name", strings.ReplaceAll(t, "%s", nm), nm, "f")
+				}
+			}
 			// (6b) declarations inside a running method / init / function, probes of the outer frame afterwards
 			for _, oc := range c05OuterCtx {
 				for _, in := range c05InnerDecl {
 					emit("exhaustive outer context x inner declaration (nested this/super/params)", fmt.Sprintf(oc.src, in.src), "o", "a", "[b, c, g]", "f")
 				}
+			}
+			// (6d) distinct blocks with coinciding positions (known finding block-scope-shared-by-position)
+			for _, bs := range c05BlockShare {
+				bs := bs
+				g.Count("directed blocks sharing a scope by position (known finding; spec = block-local names stay local)")
+				lz.Emit(func() string {
+					return evPayload(bs.prog) + c05Alt + evPayload(bs.specProg) + c05Alt + "#block-scope-shared-by-position" + c05Sep +
+						evPayload(bs.probe) + c05Alt + evPayload(bs.specProbe) + c05Alt + "#block-scope-shared-by-position" + c05Sep + evPayload("a")
+				})
 			}
 			// (6c) calls of a call result: chained form for the real code, let-desugaring for the model
 			for _, ch := range c05Chains {
